@@ -392,3 +392,24 @@ Definition thread_idle (t : thread) : bool :=
   end.
 
 Definition cinit (t0 : branch) (thr : list thread) : cstate := CS t0 0 false thr [].
+
+(** * The variant "walk the existing part of the query under the read lock,
+      attach under the write lock without looking again" (seeded/C06/seed_va),
+      kept only for the refutation MatchProofs.split_add_refuted.  Phase 1
+      finds how many leading names of the query exist as nodes; other calls
+      may run; phase 2 attaches the rest below the node found -- which, when
+      it has been pruned meanwhile, is no longer part of the trie. *)
+Fixpoint prefix_len (b : branch) (q : path) : nat :=
+  match b, q with
+  | Br _ ch, k :: r => find_with (fun sb => S (prefix_len sb r)) 0%nat k ch
+  | _, [] => 0%nat
+  end.
+
+Fixpoint node_exists (b : branch) (q : path) : bool :=
+  match b, q with
+  | _, [] => true
+  | Br _ ch, k :: r => find_with (fun sb => node_exists sb r) false k ch
+  end.
+
+Definition split_add_attach (j : nat) (q : path) (c : cid) (b : branch) : branch :=
+  if node_exists b (firstn j q) then add_query q c b else b.
